@@ -338,11 +338,11 @@ def gen_byte(pairs=True, kinds=('g',)):
                         yield _bcase(kind, ty, pos, chr(a) + chr(b))
 def gen_names(rng, tier):
     """C08: names over all scalar values for nuget / pypi / cargo, through parser (typed and generic) and builder."""
-    def cases(n):
+    def cases(n, light=False):
         e = ''.join('%%%02X' % b for b in n.encode())
-        for ty, idx in (('nuget', 5), ('pypi', 6), ('cargo', 0)):
+        for ty, idx in (('nuget', 5), ('pypi', 6)) if light else (('nuget', 5), ('pypi', 6), ('cargo', 0)):
             yield f'P t {hx("pkg:" + ty + "/" + e)}'
-            yield f'B t {idx} {hx(n)} -'
+            if not light: yield f'B t {idx} {hx(n)} -'
     alpha = ['a', 'A', '1', '-', '_', '.', 'Æ', 'ǅ']
     for n in ['ΟΔΟΣ', 'ΑΣ', 'aΣ', 'Σ', 'ΑΣ-Σ', 'ΑΣa', 'AÆ', 'MyÆsir.Core', 'aΣ.bΣ', 'İ', 'ẞ', 'ſK']: yield from cases(n)
     for k in range(1, 5 if tier == 'quick' else 6):
@@ -355,8 +355,10 @@ def gen_names(rng, tier):
         cps = range(0x80, 0x110000)
     for cp in sorted(cps):
         if 0xD800 <= cp <= 0xDFFF: continue
-        yield from cases(chr(cp))
-        if tier != 'quick' and cp % 7: continue
+        # thorough: every scalar value through the typed parser for nuget and pypi; every 16th (and everything below U+3000) through all six routes
+        light = tier != 'quick' and cp >= 0x3000 and cp % 16 != 0
+        yield from cases(chr(cp), light)
+        if tier != 'quick' and (cp % 7 or light): continue
         yield from cases('A' + chr(cp))
         yield from cases(chr(cp) + '_-')
 
